@@ -131,3 +131,29 @@ Definition time_from_der (utc : bool) (tag : N) (inp : list N) : res (N * list N
            | _ => Err
            end
   end.
+
+(* ------------------------------------------------------------------ signed time_t
+   time_t is signed.  The text of asn1_time_to_str has no test for a negative time stamp (other than the
+   marker -1 of the DER wrappers): C division truncates toward zero, the year loop stops at once in 1970,
+   and every field is added to '0' as it is - a 13/15-byte string with characters below '0' and return 1,
+   which the decoder of the same file refuses.  [fixed = true]: negative time stamps are refused (-1). *)
+Definition cbyte (z : Z) : N := Z.to_N (z mod 256).
+Definition time_to_str_neg_asis (utc : bool) (t : Z) : list N :=
+  let day := (Z.quot t 86400 + 1)%Z in
+  let second := Z.rem t 86400 in
+  let hour := Z.quot second 3600 in
+  let s1 := Z.rem second 3600 in
+  let minute := Z.quot s1 60 in
+  let sec := Z.rem s1 60 in
+  let d (v : Z) := cbyte (48 + v) in
+  (if utc then [] else [d 1%Z; d 9%Z])
+  ++ [d 7%Z; d 0%Z; d 0%Z; d 1%Z; d (Z.quot day 10); d (Z.rem day 10); d (Z.quot hour 10); d (Z.rem hour 10);
+      d (Z.quot minute 10); d (Z.rem minute 10); d (Z.quot sec 10); d (Z.rem sec 10); 90].
+Definition time_to_str_z (fixed utc : bool) (t : Z) : option (list N) :=
+  if (t <? 0)%Z then (if fixed then None else Some (time_to_str_neg_asis utc t)) else time_to_str utc (Z.to_N t).
+Definition time_to_der_z (fixed utc : bool) (tag : N) (t : Z) : res (list N) :=
+  if (t =? -1)%Z then Absent
+  else match time_to_str_z fixed utc t with
+       | None => Err
+       | Some s => Ok (tag :: len_enc (if utc then 13 else 15) ++ s)
+       end.
